@@ -11,35 +11,40 @@ COMMENTS = ("comments-lost-or-reordered",)
 
 _RULES = [
     # ---- comments
-    ("comment-in-record-pattern-lost", COMMENTS, "lost", r"[A-Z][\w.]*\s*" + CM + r"*\{[^{}]*// |[A-Z][\w.]*\s*// \S+\s*(?:[A-Z]\w*\s*)?\{"),
+    ("comment-in-record-pattern-lost", COMMENTS, "lost", r"[A-Z]\w*\s*" + CM + r"*\{"),
     ("doc-comment-after-decorator", None, None, r"@\s*" + CM + r"*\w+(?:\(\w+\))?\s*" + CM + r"*/// "),
     ("doc-comment-moved-into-fn-type", COMMENTS, None, r"/// \S+\s+" + CM + r"*(?:[a-z_]\w*\s*){0,2}" + CM + r"*:[^,{}]*?fn\("),
-    ("stray-doc-comment-relocated", COMMENTS, None, r"\{[^}]*/// (?!.*\bexpect\b)"),
+    ("stray-doc-comment-relocated", COMMENTS, "doc-comment-moved", r"/// "),
+    ("stray-doc-comment-relocated", COMMENTS, "reordered-across-kinds", r"\S.*/// "),
     ("comment-between-imports", None, None, r"^\s*(?:////? \S+\s*)*use\b.*// .*\buse\b|^\s*(?:// \S+\s*)+use\b"),
     # ---- captures
     ("pipe-capture-labelled-hole", None, None, r"\|>\s*[\w.]+\s*[({][^(){}]*\b[a-z]\w* : _"),
-    ("pipe-capture-two-holes", None, None, r"\|>\s*[\w.]+\(_\w*(?:, [^()]*)?, _\w*\s*[,)]"),
+    ("pipe-capture-two-holes", None, None, r"\|>\s*[\w.]+\(_\w*, _|\|>\s*[\w.]+\(_\w*, .*, _\w*\s*[,)]"),
     ("record-capture-hole", None, None, r"\b(?:[a-z]\w*\.)?(?:[A-Z]\w*\.)?[A-Z]\w* \{[^{}]*\b[a-z]\w* : _\w*"),
     ("capture-labelled-hole-label-dropped", ("ast-changed",), None, r"[\w.]\([a-z]\w* : _\w*, "),
     ("capture-hole-name-truncated", ("ast-changed", "not-idempotent"), None, r"[(,:]\s*_\w*[A-Za-z0-9]_\w+"),
     # ---- operators as values
-    ("anonymous-minus-line-break", ("output-does-not-parse",), None, r"[(,]\s*-\s*,"),
+    ("anonymous-minus-line-break", ("output-does-not-parse",), None, r"[(,]\s*-\s*(?:// \S+\s*)?,"),
     ("anonymous-operator-parens-dropped", None, None, r"↵\(\s*" + OP + r"\s*\)"),
     # ---- things that lose their parentheses / braces
     ("empty-logical-chain", None, None, r"\b(?:and|or) \{ \}"),
-    ("question-mark-parens-dropped", None, None, r"\([^()]*\?\)\s*(?:\(|\.|\?)"),
+    ("question-mark-parens-dropped", None, None, r"\?\s*[)}]\s*(?:\(|\.|\?)"),
     ("fail-todo-parens-dropped", None, None, r"\((?:fail|todo)\b[^()]*\)|\{ (?:fail|todo)\b[^{}]*\}|\btrace (?:fail|todo)\b"),
     ("trace-braces-dropped", None, None, r"[({]\s*trace\b"),
-    ("tuple-index-on-broken-pipeline", ("output-does-not-parse",), None, r"\([^()]*↵\|>[^()]*\)\.\d+(?:st|nd|rd|th)"),
-    ("chain-head-parens-dropped", None, None, r"[({]\s*(?:- |! |[^(){}]*\s" + OP + r"\s).*?[)}]\s*(?:\(|\.\w)"),
+    ("tuple-index-on-broken-pipeline", ("output-does-not-parse",), None, r"↵\|>[^()]*\)\.\d+(?:st|nd|rd|th)"),
+    ("trace-argument-braces-dropped", None, None, r"\btrace\b.*[:,]\s*\{\s*@?\""),
+    ("chain-head-parens-dropped", None, None, r"[({]\s*(?:- |! |.*?\s" + OP + r"\s).*?[)}]\s*(?:\(|\.\w)"),
+    ("anonymous-operator-parens-dropped", None, None, r"[({]\s*(?:\+|\*|/|%|==|!=|<=|>=|<|>|&&|\|\|)\s+[\w@\"]|(?:\+|\*|/|%|==|!=|<=|>=|<|>|&&|\|\|)\("),
     # ---- patterns / literals / definitions
-    ("expect-true-pattern-arguments-dropped", None, None, r"\bexpect True\s*[({]"),
+    ("expect-true-sugar-overapplied", None, None, r"\bexpect True\s*(?:[({]|<-)"),
     ("pair-pattern-trailing-comma", None, None, r"\bPair\([^()]*, \)"),
     ("list-tail-discard-name-dropped", None, None, r"\.\._\w+\]"),
     ("int-underscore-zero-group", None, None, r"(?<![\w])0\d*_\d"),
     ("empty-bytearray-broken-line", ("output-does-not-parse",), None, r"#\[\]"),
     ("lambda-nested-block-assignment-layout", ("not-idempotent",), None, r"fn\([^()]*\)\s*(?:->[^{]*)?\{ \{ (?:let|expect)\b"),
-    ("comment-before-module-comments-layout", ("not-idempotent",), None, r"^\s*// \S+\s*//// "),
+    ("comment-before-pipe-layout", ("not-idempotent",), None, r"// .*\|>|\|>\s*// "),
+    ("comment-in-labelled-pattern-field-layout", ("not-idempotent",), None, r"\{[^{}]*\b[a-z]\w* // \S+\s*:|\{[^{}]*\b[a-z]\w* : // "),
+    ("comment-before-module-comments-layout", ("not-idempotent",), None, r"// \S+\s*//// "),
     ("comment-at-end-of-module-blank-lines-layout", ("not-idempotent",), None, r"// \S+\s*⏎⏎\s*$"),
     ("empty-data-type", None, None, r"\btype [A-Z]\w*(?:<[^>]*>)? \{ \}"),
 ]
